@@ -123,11 +123,17 @@ def check_one(ctx, tskit, spec, ts, tree, x, geno, alleles, anc, tables=None, W=
                                   else ".unary_chain_oldest_missing_sample"),
                       lambda: f"mutation on {m.node} whose parent {p} is unary and unobserved; " + detail())
     # (i) reproduces the data (positional model on the spec with the site appended)
-    spec2 = dict(spec)
-    spec2["sites"] = [[x, a_state, ""]]
-    spec2["mutations"] = [[0, m.node, m.derived_state, m.parent, None, ""] for m in muts]
+    # (one mutation per node was checked above, so the state at u is the derived state of the nearest mutation at
+    # or above u, else the ancestral state; memoised walk, linear in the number of nodes)
+    state_at = {}
     for u, g in obs.items():
-        got = model.allele_at(spec2, 0, u, par)
+        path, v = [], u
+        while v >= 0 and v not in state_at and v not in on:
+            path.append(v)
+            v = par[v]
+        got = a_state if v < 0 else (state_at[v] if v in state_at else muts[on[v]].derived_state)
+        for w in path:
+            state_at[w] = got
         ctx.check(got == alleles[g], W + ".reproduce",
                   lambda: f"sample {u}: placed state {got!r}, observed {alleles[g]!r}; " + detail())
     # (ii) optimal
@@ -359,6 +365,35 @@ def enum_large(tier, seed):
             for pattern in ("majority", "random2", "random4", "missing_mix"):
                 for anc in (None, ["idx", 1]):
                     yield dict(shape=shape, k=k, pattern=pattern, anc=anc, internal=(k % 2 == 1))
+    # answers with more than 2^15 / 2^16 mutations, half of them nested under another mutation
+    for k, anc in ([(18000, None)] if tier == "quick" else [(18000, None), (18000, ["idx", 0]), (34000, None), (34000, ["idx", 2])]):
+        yield dict(shape="nested_groups", k=k, pattern="groups", anc=anc, internal=False)
+
+
+def nested_groups(K):
+    """Root polytomy with K groups X(1, 1, Y(2, 2)) and K+1 leaves in state 0: the most parsimonious answer has a
+    0->1 mutation over every X and a 1->2 mutation over every Y whose parent is the mutation over its X."""
+    nodes, edges, geno = [], [], []
+    root = 0
+    nodes.append([0, 3.0, -1, -1, ""])
+    for _ in range(K):
+        x = len(nodes)
+        nodes.append([0, 2.0, -1, -1, ""])
+        y = len(nodes)
+        nodes.append([0, 1.0, -1, -1, ""])
+        edges.append([0.0, 1.0, root, x, ""])
+        edges.append([0.0, 1.0, x, y, ""])
+        for par, g in ((x, 1), (x, 1), (y, 2), (y, 2)):
+            nodes.append([1, 0.0, -1, -1, ""])
+            edges.append([0.0, 1.0, par, len(nodes) - 1, ""])
+            geno.append(g)
+    for _ in range(K + 1):
+        nodes.append([1, 0.0, -1, -1, ""])
+        edges.append([0.0, 1.0, root, len(nodes) - 1, ""])
+        geno.append(0)
+    edges.sort(key=lambda e: (nodes[e[2]][1], e[2], e[3]))
+    return dict(L=1.0, nodes=nodes, edges=edges, sites=[], mutations=[], individuals=[], populations=[],
+                migrations=[]), geno
 
 
 def run_large(case, ctx):
@@ -371,6 +406,14 @@ def run_large(case, ctx):
     from ._shapes import lcg, shape_spec
 
     sys.setrecursionlimit(max(sys.getrecursionlimit(), 5000))
+    if case["shape"] == "nested_groups":
+        spec, geno = nested_groups(case["k"])
+        ctx.nt(True)
+        ctx.label("shape:nested_groups")
+        ts = gen.build_tables(spec, tskit).tree_sequence()
+        _, muts = check_one(ctx, tskit, spec, ts, ts.first(), 0.0, geno, ["A", "C", "G", "T"], case["anc"])
+        ctx.check(len(muts) == 2 * case["k"], "map_mutations.optimal", f"{len(muts)} mutations, expected {2 * case['k']}")
+        return
     spec = shape_spec(case["shape"], case["k"], internal_samples=case["internal"])
     smp = model.samples(spec)
     g = lcg(case["k"] * 31 + len(case["pattern"]))
